@@ -163,7 +163,7 @@ pub struct Faults;
 
 pub async fn run_fault_case(case: &C09Case, obs: &mut Obs) {
 	crate::panics::clear_local();
-	let mut w = World::new(ClientCfg { id_kind: case.id_kind, ping: case.fault == Fault::PingFails, mw_last: case.after.len() % 2 == 1, ..ClientCfg::default() });
+	let mut w = World::new(ClientCfg { id_kind: case.id_kind, ping: case.fault == Fault::PingFails, mw_last: case.after.len() % 2 == 1, ws_builder: case.during.len() % 2 == 1, ..ClientCfg::default() });
 	// ---- the history before the fault
 	let mut want_before: Vec<Option<Outcome>> = vec![];
 	for p in &case.pre {
